@@ -149,6 +149,12 @@ func runC05EOF(c *Ctx) {
 				bad = true
 			}
 		}
+		// every success return lies behind the trailing request
+		for _, r := range returnsOf(f) {
+			if len(r.Results) == 2 && isNilConst(r.Results[1]) && !nx.Block().Dominates(r.Block()) {
+				c.Bad(instrPos(r), fn, "success return before the trailing-token check", "UnmarshalWKT returns success at "+c.P.Pos(instrPos(r))+" without having asked the lexer for the end of the input: on that path (e.g. an option-dependent early return) trailing tokens are accepted")
+			}
+		}
 		c.Check(!bad, nx.Pos(), fn, "trailing-token check", "success is reachable only when the trailing request failed with wktUnexpectedEOF", "a success return is reachable after the trailing lexer request without errors.Is(err, wktUnexpectedEOF) having been established: malformed trailing input (a lexer error other than EOF) is accepted")
 	}
 }
